@@ -1142,3 +1142,134 @@ func ruleSingleDispatcher(c *chk.Ctx, d *dispatchModel) {
 		c.Fail("WHO.queue", d.closure, "batches run concurrently", d.closure.Pos(), "the dispatch closure is not run in its own goroutine: a running call would delay every later request")
 	}
 }
+
+// ruleBuiltinThroughInvoke: built-in methods run only as Handler values (and so under
+// the semaphore): the server-info function is called only from the closure the assign
+// function returns (and from user code).
+func ruleBuiltinThroughInvoke(c *chk.Ctx) {
+	si := c.M.Func(c.M.Pkg, "(*Server).ServerInfo")
+	if si == nil {
+		c.Undecided("WHO.builtin", nil, "ServerInfo", 0, "not found")
+		return
+	}
+	var assignFn *ssa.Function
+	for _, f := range pkgFuncs(c, c.M.Pkg) {
+		ir.Calls(f, func(ci ssa.CallInstruction) {
+			cc := ci.Common()
+			if cc.IsInvoke() && cc.Method.Name() == "Assign" && chk.LoadsField(cc.Value, c.M.SMux) {
+				assignFn = f
+			}
+		})
+	}
+	n := 0
+	for _, s := range c.P.Callers(si) {
+		n++
+		ok := assignFn != nil && s.Caller.Parent() == assignFn && isHandlerSig(c, s.Caller.Signature)
+		c.Check(ok, "WHO.builtin", s.Caller, "built-in method body", s.Instr.Pos(), "the built-in method's body is called only from the Handler closure the assign function returns, so it runs through the invoke function under a semaphore slot",
+			"the built-in method's body is called directly from "+ir.Name(s.Caller)+", not through a Handler value: it would execute outside the concurrency limit")
+	}
+	if n == 0 {
+		c.Undecided("WHO.builtin", si, "built-in method body", si.Pos(), "no library caller of the server-info function found")
+	}
+}
+
+// nullNormaliser: the function that maps the token null to an absent id
+// (returns its argument unless a null predicate holds, nil otherwise).
+func isNullNormaliser(c *chk.Ctx, g *ssa.Function) bool {
+	if g == nil || !c.P.InRepo[g] || g.Signature.Params().Len() != 1 || g.Signature.Results().Len() != 1 {
+		return false
+	}
+	retParam, retNil := false, false
+	for _, r := range ir.Returns(g) {
+		v := ir.ReturnResult(r, 0)
+		if _, isP := v.(*ssa.Parameter); isP {
+			retParam = true
+		}
+		if ir.IsNilConst(v) {
+			retNil = true
+		}
+	}
+	return retParam && retNil
+}
+
+// ruleNullIsAbsent: in the check/assign function the Request's id and the
+// reservation key both derive from the null-normalised inbound id.
+func ruleNullIsAbsent(c *chk.Ctx, d *dispatchModel) {
+	f := d.checkAssign
+	var norm *ssa.Call
+	// the Request literal's id
+	okReq := false
+	ir.Instrs(f, func(ins ssa.Instruction) {
+		st, ok := ins.(*ssa.Store)
+		if !ok || !chk.IsField(st.Addr, c.M.QID) {
+			return
+		}
+		if call, ok := st.Val.(*ssa.Call); ok && isNullNormaliser(c, call.Call.StaticCallee()) && chk.LoadsField(call.Call.Args[0], c.M.JID) {
+			okReq, norm = true, call
+		}
+	})
+	c.Check(okReq, "PROV.nullid", f, "request id is null-normalised", f.Pos(), "the Request handed to dispatch gets its id from the null-normalising function applied to the inbound id: \"id\":null is a notification everywhere downstream", "the Request's id is not the null-normalised inbound id: a message with \"id\":null would be treated as a call by the barrier count, the response builder or IsNotification")
+	// the key used for duplicate detection and reservation
+	var reserve ssa.CallInstruction
+	ir.Calls(f, func(ci ssa.CallInstruction) {
+		if ci.Common().StaticCallee() == d.setContext {
+			reserve = ci
+		}
+	})
+	okKey := false
+	why := "reservation call not found"
+	if reserve != nil && norm != nil {
+		why = "the key does not derive from the normalised id"
+		key := reserve.Common().Args[2]
+		cands := []ssa.Value{key}
+		if u, ok := key.(*ssa.UnOp); ok {
+			if ia, ok := u.X.(*ssa.IndexAddr); ok {
+				el, _ := c.P.ElementValues(ia.X)
+				cands = append(cands, el...)
+			}
+		}
+		for _, v := range cands {
+			if cv, ok := v.(*ssa.Convert); ok && cv.X == ssa.Value(norm) {
+				okKey = true
+			}
+		}
+	}
+	c.Check(okKey, "PROV.nullid", f, "reservation key is the normalised id", f.Pos(), "the key under which ids are looked up and reserved is string(normalised id): an explicit null is never reserved", "the reservation key is not derived from the null-normalised id ("+why+"): \"id\":null would be reserved under the text null and later notifications rejected as duplicates")
+}
+
+// ruleHandlerFromAssigner: the handler stored into a task is the assign function's
+// result for that task's own context and method, obtained in the same iteration.
+func ruleHandlerFromAssigner(c *chk.Ctx, d *dispatchModel) {
+	f := d.checkAssign
+	n := 0
+	ir.Instrs(f, func(ins ssa.Instruction) {
+		st, ok := ins.(*ssa.Store)
+		if !ok {
+			return
+		}
+		fa, ok := st.Addr.(*ssa.FieldAddr)
+		if !ok || ir.FieldVar(fa) != c.M.TM || ir.FieldOwner(fa) != c.M.Task {
+			return
+		}
+		n++
+		task := ir.NormCell(fa.X)
+		call, isCall := st.Val.(*ssa.Call)
+		good := false
+		if isCall && call.Call.StaticCallee() != nil && ir.RecvNamed(call.Call.StaticCallee()) == c.M.Server && len(call.Call.Args) == 3 {
+			t1, f1, ok1 := taskFieldLoad(c, call.Call.Args[1])
+			okM := false
+			if u, ok := call.Call.Args[2].(*ssa.UnOp); ok {
+				if fa2, ok := u.X.(*ssa.FieldAddr); ok && ir.FieldVar(fa2) == c.M.QMethod {
+					if t2, f2, ok2 := taskFieldLoad(c, fa2.X); ok2 && f2 == c.M.THreq && t2 == task {
+						okM = true
+					}
+				}
+			}
+			good = ok1 && f1 == c.M.TCtx && t1 == task && okM
+		}
+		c.Check(good, "PROV.assign", f, "handler comes from the assigner for this very request", st.Pos(), "task.m ← assign(task.ctx, task.hreq.method) of the same task, in the same iteration", "the handler stored into a task is not the assign function's direct result for that task's own context and method (cached or shared): a request could be dispatched to the handler chosen for a different request, and the assigner would not see its InboundRequest")
+	})
+	if n == 0 {
+		c.Undecided("PROV.assign", f, "handler assignment", f.Pos(), "no handler assignment found")
+	}
+}
